@@ -195,6 +195,34 @@ def relevant(hyp_syms, goal_syms, rounds=3):
     return chosen
 
 
+def cvc5_unsat(text, timeout_ms):
+    """True if /usr/bin/cvc5 reports unsat for the SMT-LIB text; a short string otherwise."""
+    import shutil
+    import subprocess
+    import tempfile
+    exe = shutil.which('cvc5')
+    if exe is None:
+        return 'cvc5 not installed'
+    with tempfile.NamedTemporaryFile('w', suffix='.smt2', delete=False,
+                                     dir=os.environ.get('VERIF_SCRATCH')) as f:
+        f.write('(set-logic ALL)\n' + text + '\n(check-sat)\n')
+        path = f.name
+    try:
+        out = subprocess.run([exe, '--tlimit=%d' % timeout_ms, path], capture_output=True, text=True,
+                             timeout=timeout_ms / 1000.0 + 10)
+        first = (out.stdout.strip().splitlines() or [''])[0]
+        if first == 'unsat':
+            return True
+        return first or out.stderr.strip()[:120]
+    except Exception as e:       # noqa
+        return repr(e)
+    finally:
+        try:
+            os.unlink(path)
+        except OSError:
+            pass
+
+
 def solve_one(args):
     """Phase 2 worker: ONE obligation in a FRESH z3 context and a non-incremental
     solver (verdicts must not depend on what was solved before).  `unknown` is
@@ -278,8 +306,18 @@ def solve_one(args):
             r, reason = 'error', repr(e)
         if r != 'unknown':
             break
+    backend = 'z3-%s' % z3.get_version_string()
+    if r == 'unknown' and rec['kind'] != 'canary' and opts.get('cvc5', True):
+        # second back end for what z3 leaves open: cvc5 on the same SMT-LIB text (only
+        # `unsat` is taken from it)
+        c5 = cvc5_unsat(text, max(3000, timeout_ms))
+        n_att += 1
+        if c5 is True:
+            r, reason, backend = 'unsat', '', 'cvc5-cli'
+        elif isinstance(c5, str):
+            reason += ' | cvc5: ' + c5[:120]
     rec['seconds'] = round(time.time() - t1, 4)
-    rec['backend'] = 'z3-%s' % z3.get_version_string()
+    rec['backend'] = backend
     rec['reason'] = reason
     rec['attempts'] = n_att
     rec['result'] = {'unsat': 'proved', 'sat': 'sat', 'unknown': 'unknown', 'error': 'error'}[r]
